@@ -101,7 +101,9 @@ def file_route(rec, idx, n, workdir):
         names = ["m%d" % i for i in range(n)]
         name_to_idx = {nm: i for i, nm in enumerate(names)}
     data = gridoracle.data_from_tables(gridoracle.int_tables(n, 1, 5, 3), names=names)
-    d = os.path.join(workdir, "c%d_%d" % (os.getpid(), idx))
+    # every trace a worker handles is written to the SAME path (a long-lived driver re-running the sampler and summarising
+    # again): the command must build the consensus of what the file holds now
+    d = os.path.join(workdir, "c%d" % os.getpid())
     os.makedirs(d, exist_ok=True)
     ents = [(absstate.canon(e["t"]), math.log(e["m"]) - 2.5, idx + j) for j, e in enumerate(rec["trees"])]
     chains = ([(1, ents[1:]), (0, ents[:1])] if idx % 2 else [(0, ents[:1]), (1, ents[1:])]) if len(ents) > 1 else [(0, ents)]
